@@ -30,13 +30,13 @@ ASSUMPTIONS = [
     'per-step mastering is assumed not to disturb the object (that is C06\'s claim and checked there)',
 ]
 SHARDS = {'quick': 16, 'thorough': 16}
-CASES = {'quick': 300, 'thorough': 6000}
+CASES = {'quick': 150, 'thorough': 4000}
 STEP_KINDS = {'add_fp', 'add_link', 'rm_link', 'rm_file', 'add_boot', 'rm_boot', 'reopen', 'rm_sym', 'link_cat', 'add_sym'}
 
 
 def strategy(tier):
     cfg = gen.cfg_st()
-    progs = st.one_of(gen.links(reopen_ok=True), gen.links(reopen_ok=True), gen.links(reopen_ok=False), gen.mixed(True, cfg, 5, 20))
+    progs = st.one_of(gen.links(reopen_ok=True), gen.links(reopen_ok=True), gen.links(reopen_ok=False), gen.mixed(True, cfg, 5, 20), gen.biglinks(), gen.biglinks())
     return st.tuples(progs.map(lambda p: dict(p, profile='links')), st.none())
 
 
